@@ -6,9 +6,10 @@ import Verif.Driver.Heap
 import Verif.Driver.Cache
 import Verif.Driver.Wordlist
 import Verif.Driver.Cognates
+import Verif.Driver.GainLoss
 open Verif.Driver
 
-def handlers : List (List (List String) → Option String) := [handleAlign, handleSC, handleCluster, handleTree, handleHeap, handleCache, handleWL, handleCog]
+def handlers : List (List (List String) → Option String) := [handleAlign, handleSC, handleCluster, handleTree, handleHeap, handleCache, handleWL, handleCog, handleGL]
 
 def dispatch (line : String) : String :=
   let fs := fields line
